@@ -38,9 +38,11 @@ static unsigned long st_lookup, st_lookup_miss, st_lookup_pop, st_lookup_drcs, s
 cache_page *__real__vbi_cache_get_page(vbi_cache *, cache_network *, vbi_pgno, vbi_subno, vbi_subno);
 cache_page *__real_vbi_convert_page(vbi_decoder *, cache_page *, vbi_bool, enum ttx_page_function);
 /* calls from other translation units only (teletext.c: object / DRCS look-up with mask 0xF, AIT look-up with 0x3f7f) */
+static int st_pause;	/* set during the reference fetch of the intra-object audit: not counted */
 cache_page *__wrap__vbi_cache_get_page(vbi_cache *ca, cache_network *cn, vbi_pgno pgno, vbi_subno subno, vbi_subno mask)
 {
 	cache_page *cp = __real__vbi_cache_get_page(ca, cn, pgno, subno, mask);
+	if (st_pause) return cp;
 	if (mask == 0x000F) {
 		++st_lookup;
 		if (!cp) ++st_lookup_miss;
@@ -61,7 +63,7 @@ cache_page *__wrap_vbi_convert_page(vbi_decoder *vbi, cache_page *vtp, vbi_bool 
 {
 	int plain = cached && vtp->function == PAGE_FUNCTION_UNKNOWN && !vtp->x26_designations && !(vtp->x28_designations & 0x13);
 	cache_page *r = __real_vbi_convert_page(vbi, vtp, cached, fn);
-	if (cached) {
+	if (cached && !st_pause) {
 		if (!r) ++st_conv_fail;
 		else if (fn == PAGE_FUNCTION_POP || fn == PAGE_FUNCTION_GPOP) { ++st_conv_pop; st_conv_pop_plain += plain; }
 		else if (fn == PAGE_FUNCTION_DRCS || fn == PAGE_FUNCTION_GDRCS) { ++st_conv_drcs; st_conv_drcs_plain += plain; }
@@ -250,6 +252,29 @@ int main(void)
 			pg_valid = vbi_fetch_vt_page(dec, pg, (vbi_pgno) a, (vbi_subno) b, lv[c & 3], (int) d, (vbi_bool) e);
 			if (verbose) fprintf(stderr, "fetch %llx.%llx -> %d\n", a, b, pg_valid);
 #ifdef DEC_STATS
+			/* intra-object audit: a store behind vbi_page.text[] lands in dirty / screen_color / color_map[], invisible to
+			   ASan and to the bounds instrumentation (it goes through a vbi_char pointer).  color_map[] is computed before
+			   anything that depends on display_rows, and with one row the formatter touches the header row only: the same
+			   page formatted with display_rows 1 must show the same color_map[]. */
+			if (pg_valid && a != 0x900 && d > 1) {
+				vbi_page *ref = calloc(1, sizeof *ref);
+				int i, ok;
+				st_pause = 1;
+				ok = vbi_fetch_vt_page(dec, ref, (vbi_pgno) a, (vbi_subno) b, lv[c & 3], 1, 0);
+				st_pause = 0;
+				if (ok) {
+					for (i = 0; i < 40; ++i)
+						if (ref->color_map[i] != pg->color_map[i]) {
+							fprintf(stderr, "DECINTRA vbi_page.color_map[%d] is %08x after a fetch with %d rows, %08x with 1 row: "
+								"store behind text[%d] (text[%d])\n", i, pg->color_map[i], (int) d, ref->color_map[i],
+								(int) (sizeof pg->text / sizeof pg->text[0]),
+								(int) (((char *) &pg->color_map[i] - (char *) pg->text) / sizeof pg->text[0]));
+							break;
+						}
+					vbi_unref_page(ref);
+				}
+				free(ref);
+			}
 			if (pg_valid) {
 				++st_fetch_ok; if ((c & 3) >= 2) ++st_fetch_l25;
 				if (a == 0x900) ++st_top_index;
